@@ -2520,10 +2520,26 @@ func (c *streamableClientConn) handleSSE(ctx context.Context, requestSummary str
 		if clientClosed {
 			return
 		}
+		// The last event ID is a property of the logical stream, not of a single
+		// response body: if this body was interrupted before it delivered an
+		// event with an ID, we can still resume from the ID received on an
+		// earlier body.
+		if lastEventID == "" {
+			lastEventID = prevLastEventID
+		}
 		// If we don't have a last event ID, we can never get the call response, so
-		// there's nothing to resume. For the standalone stream, we can reconnect,
-		// but we may just miss messages.
+		// there's nothing to resume: report a synthetic error for the call, since
+		// the caller is still waiting for a response that will never come. For
+		// the standalone stream, we can reconnect, but we may just miss messages.
 		if lastEventID == "" && forCall != nil {
+			errmsg := &jsonrpc2.Response{
+				ID:    forCall.ID,
+				Error: fmt.Errorf("request terminated without response"),
+			}
+			select {
+			case c.incoming <- errmsg:
+			case <-c.done:
+			}
 			return
 		}
 
@@ -2604,9 +2620,9 @@ func (c *streamableClientConn) checkResponse(ctx context.Context, requestSummary
 }
 
 // processStream reads from a single response body, sending events to the
-// incoming channel. It returns the ID of the last processed event and a flag
-// indicating if the connection was closed by the client. If resp is nil, it
-// returns "", false.
+// incoming channel. It returns the ID of the last processed event of this
+// body ("" if none had an ID) and a flag indicating if the connection was
+// closed by the client. If resp is nil, it returns "", false.
 func (c *streamableClientConn) processStream(ctx context.Context, requestSummary string, resp *http.Response, forCall *jsonrpc.Request) (lastEventID string, reconnectDelay time.Duration, clientClosed bool) {
 	defer func() {
 		// Drain any remaining unprocessed body. This allows the connection to be re-used after closing.
@@ -2675,23 +2691,10 @@ func (c *streamableClientConn) processStream(ctx context.Context, requestSummary
 			return "", 0, true
 		}
 	}
-	// The loop finished without an error, indicating the server closed the stream.
-	//
-	// If the lastEventID is "", the stream is not retryable and we should
-	// report a synthetic error for the call.
-	//
-	// Note that this is different from the cancellation case above, since the
-	// caller is still waiting for a response that will never come.
-	if lastEventID == "" && forCall != nil {
-		errmsg := &jsonrpc2.Response{
-			ID:    forCall.ID,
-			Error: fmt.Errorf("request terminated without response"),
-		}
-		select {
-		case c.incoming <- errmsg:
-		case <-c.done:
-		}
-	}
+	// The stream was interrupted, or the server closed it. Whether it can be
+	// resumed depends on the event IDs seen on this and on earlier bodies, so
+	// that is for the caller to decide. lastEventID is "" if no event of this
+	// body carried an ID.
 	return lastEventID, reconnectDelay, false
 }
 
